@@ -858,7 +858,7 @@ def run(chk):
     return chk.finish(
         level="proof",
         rule="valid documents = SDK examples + seeded aasgen stores written by the SDK writers; each case damages one node "
-             "(every member / list item / element below a chosen identifiable) with one of 13 damage operators (the 13th: re-binding the XML namespace prefix / default namespace on the root or one element) or the harmless operator (XML comment / processing instruction / white space at or inside the node, JSON white space / member order / escapes: both readers must return the undamaged result) and reads a document "
+             "(every member / list item / element below a chosen identifiable) with one of 13 damage operators (the 13th: re-binding the XML namespace prefix / default namespace on the root or one element) or the harmless operator (XML comment / processing instruction / white space at or inside the node, text or element supplied by an internal general entity of the document's own DOCTYPE, JSON white space / member order / escapes: both readers must return the undamaged result) and reads a document "
              "holding the victim and up to two untouched witnesses with the failsafe and the strict reader of its format, selected through a seeded reader variant (failsafe flag / explicit shipped decoder class / decoder class with contradicting flags / trivial subclass, x stripped, x file/file_into); a fifth of the cases is repeated under another logging configuration; a damaged identifiable must come back unchanged, not at all, or as read from a valid document without the damaged node or a node containing it; all node x operator pairs are "
              "enumerated and a seeded sample of the budget is run; plus fixed and random well-formed non-AAS documents, "
              "truncated/garbled bytes, and random multi-item documents for the walk model; non-trivial = every damage "
